@@ -33,8 +33,8 @@ from collections import Counter
 
 VERIF = os.path.dirname(os.path.dirname(os.path.abspath(__file__)))
 NPROC_DEFAULT = 16
-MAX_BUCKETS = 4            # distinct root-cause buckets collected per worker before stopping
-SHRINK_CAP_S = {'quick': 45.0, 'thorough': 150.0}
+MAX_BUCKETS = 3            # distinct root-cause buckets collected per worker before stopping
+SHRINK_CAP_S = {'quick': 30.0, 'thorough': 120.0}
 
 
 class Violation(Exception):
